@@ -132,39 +132,60 @@ Proof.
   - destruct (copy_replace fuel (dir, m) (dest, m) f) as [f1|] eqn:C; [|discriminate]. intros E R. now apply (IH f1 f' n c E).
 Qed.
 
-(* ---- Move: os.Rename acts on NAMES - the source name's node (a file, or a link as it is) becomes the destination
-   name's node, whatever that name held; no link is followed on either side ---- *)
-Definition move_node (src dst : entry) (f : lfsys) : option lfsys :=
+(* ---- Move (internal.Move, /repo r15): a plain file is renamed - os.Rename acts on NAMES, the source name's node becomes
+   the destination name's node, whatever that held.  A symbolic link is NOT moved as a link (in another directory it would
+   point somewhere else, at nothing, or at itself - the r15 finding: a listed file that was a link to the destination's own
+   copy became a link to itself, and the only copy of the data was gone): what it denotes is copied, the link removed ---- *)
+Definition move_node (fuel : nat) (src dst : entry) (f : lfsys) : option lfsys :=
   match lget src f with
+  | Some (Link _) => match copy_replace fuel src dst f with Some f1 => Some (ldel src f1) | None => None end
   | Some n => Some (lput dst n (ldel src f))
   | None => None
   end.
-Fixpoint moves (dir dest : str) (names : list str) (f : lfsys) : lfsys * bool :=
+Fixpoint moves (fuel : nat) (dir dest : str) (names : list str) (f : lfsys) : lfsys * bool :=
   match names with
   | [] => (f, true)
-  | n :: r => match move_node (dir, n) (dest, n) f with Some f1 => moves dir dest r f1 | None => (f, false) end
+  | n :: r => match move_node fuel (dir, n) (dest, n) f with Some f1 => moves fuel dir dest r f1 | None => (f, false) end
   end.
-Theorem move_node_only_the_two_names src dst f f' : move_node src dst f = Some f' ->
+Theorem move_node_only_the_two_names fuel src dst f f' : move_node fuel src dst f = Some f' ->
   forall e, entry_eqb e dst = false -> entry_eqb e src = false -> lget e f' = lget e f.
 Proof.
-  unfold move_node. destruct (lget src f) as [n|]; [|discriminate]. intros E e N1 N2. inversion E; subst.
-  rewrite lget_lput_other by exact N1. now apply lget_ldel_other.
+  unfold move_node. destruct (lget src f) as [[c|t]|] eqn:G; [| |discriminate]; intros E e N1 N2.
+  - inversion E; subst. rewrite lget_lput_other by exact N1. now apply lget_ldel_other.
+  - destruct (copy_replace fuel src dst f) as [f1|] eqn:C; [|discriminate]. inversion E; subst.
+    rewrite lget_ldel_other by exact N2. exact (copy_replace_only_the_name fuel src dst f f1 C e N1).
 Qed.
-Theorem move_node_delivers src dst f f' n : move_node src dst f = Some f' -> lget src f = Some n ->
-  lget dst f' = Some n /\ (entry_eqb src dst = false -> lget src f' = None).
+(* a plain file arrives as it was and its source name is free; a link arrives as the BYTES it denoted *)
+Theorem move_node_delivers_file src dst f f' fuel c : move_node fuel src dst f = Some f' -> lget src f = Some (File c) ->
+  lget dst f' = Some (File c) /\ (entry_eqb src dst = false -> lget src f' = None).
 Proof.
   unfold move_node. intros E G. rewrite G in E. inversion E; subst. split; [apply lget_lput_same|].
   intros N. rewrite lget_lput_other by exact N. apply lget_ldel_same.
 Qed.
+Theorem move_node_delivers_link src dst f f' fuel t c : move_node fuel src dst f = Some f' -> lget src f = Some (Link t) ->
+  read fuel src f = Some c -> same_file fuel src dst f = false -> entry_eqb src dst = false ->
+  lget dst f' = Some (File c) /\ lget src f' = None.
+Proof.
+  unfold move_node. intros E G R SF N. rewrite G in E. destruct (copy_replace fuel src dst f) as [f1|] eqn:C; [|discriminate].
+  inversion E; subst. unfold copy_replace in C. rewrite SF, R in C. inversion C; subst. split.
+  - rewrite lget_ldel_other by (rewrite entry_eqb_sym; exact N). apply lget_lput_same.
+  - apply lget_ldel_same.
+Qed.
 (* a run of moves out of dir into dest, succeeding or failing half way: a name that lies in neither directory keeps its
    node - in particular what a link among the moved names pointed at is not touched *)
-Theorem moves_stay_in_the_two_directories dir dest : forall names f e,
-  str_eqb (fst e) dest = false -> str_eqb (fst e) dir = false -> lget e (fst (moves dir dest names f)) = lget e f.
+Theorem moves_stay_in_the_two_directories fuel dir dest : forall names f e,
+  str_eqb (fst e) dest = false -> str_eqb (fst e) dir = false -> lget e (fst (moves fuel dir dest names f)) = lget e f.
 Proof.
   induction names as [|n r IH]; intros f e N1 N2; cbn [moves]; [reflexivity|].
-  destruct (move_node (dir, n) (dest, n) f) as [f1|] eqn:M; [|reflexivity].
-  rewrite (IH f1 e N1 N2). apply (move_node_only_the_two_names _ _ f f1 M); now apply not_in_dest_neq.
+  destruct (move_node fuel (dir, n) (dest, n) f) as [f1|] eqn:M; [|reflexivity].
+  rewrite (IH f1 e N1 N2). apply (move_node_only_the_two_names _ _ _ f f1 M); now apply not_in_dest_neq.
 Qed.
+(* the r15 finding as it was: the link renamed over the file it points at *)
+Example link_renamed_onto_its_target :
+  let f := [ ((s "src", s "foo"), Link (s "dst", s "foo")); ((s "dst", s "foo"), File (s "the only copy")) ] in
+  (* os.Rename of the link: *) read 40 (s "dst", s "foo") (lput (s "dst", s "foo") (Link (s "dst", s "foo")) (ldel (s "src", s "foo") f)) = None /\
+  (* internal.Move: *) option_map (read 40 (s "dst", s "foo")) (move_node 40 (s "src", s "foo") (s "dst", s "foo") f) = Some (Some (s "the only copy")).
+Proof. vm_compute. split; reflexivity. Qed.
 
 (* ---- the earlier copy: refuted by the finding's example ---- *)
 Definition ex_fs : lfsys :=
